@@ -204,7 +204,7 @@ func removeInputParam(match matcher,
 				}
 			}
 		}
-		if ast.Call != nil && ast.Call.DecId == callable.GetId() {
+		if match(ast) && ast.Call != nil && ast.Call.DecId == callable.GetId() {
 			id := makeDecId(ast.Call)
 			if _, ok := modified[id]; !ok {
 				edits = append(edits, &removeCallInput{
